@@ -39,7 +39,7 @@ def real_run(base, steps, cmds):
     env.pop('XDG_DATA_HOME', None)
     for cmd, args, stdin in cmds:
         log = os.path.join(base, 'strace.log')
-        p = subprocess.run(['strace', '-f', '-qq', '-o', log, '-e',
+        p = subprocess.run(['strace', '-f', '-y', '-qq', '-o', log, '-e',
                             'trace=mkdir,mkdirat,rename,renameat,renameat2,unlink,unlinkat,rmdir,symlink,symlinkat,link,linkat,chmod,fchmodat,openat,open,creat',
                             sys.executable, '-B', '/repo/' + cmd] + args,
                            cwd=root + '/home/u', env=env, input=stdin.encode(), stdout=subprocess.PIPE, stderr=subprocess.PIPE, timeout=120)
@@ -50,6 +50,8 @@ def real_run(base, steps, cmds):
                     continue
                 op, argstr, ret = m.group(1), m.group(2), int(m.group(3))
                 paths = re.findall(r'"((?:[^"\\]|\\.)*)"', argstr)
+                # *at() calls: the directory descriptor is printed as  5</path/of/dir>  (strace -y)
+                fdbases = re.findall(r'(?:^|, )(?:AT_FDCWD|\d+)<([^>]*)>', argstr)
                 if op in ('openat', 'open', 'creat'):
                     if not re.search(r'O_CREAT|O_TRUNC|O_WRONLY|O_RDWR', argstr) and op != 'creat':
                         continue
@@ -59,7 +61,10 @@ def real_run(base, steps, cmds):
                 else:
                     kind = {'mkdirat': 'mkdir', 'renameat': 'rename', 'renameat2': 'rename', 'symlinkat': 'symlink', 'linkat': 'link',
                             'fchmodat': 'chmod'}.get(op, op)
-                rel = [canon(root, root + '/home/u', p) for p in paths]
+                rel = []
+                for i, p in enumerate(paths):
+                    b = fdbases[min(i, len(fdbases) - 1)] if fdbases else root + '/home/u'
+                    rel.append(canon(root, b, p))
                 if kind == 'symlink':
                     rel = rel[1:]        # first string is the target text
                 if not any(r is not None for r in rel):
